@@ -3,6 +3,7 @@
    Statements only; proofs live in Proofs/TieredProofs.v; the model is Model/Tiered.v. *)
 From Coq Require Import List NArith ZArith Bool Arith.
 From Kyro Require Import Model.TMap Model.Tiered Proofs.TieredProofs.
+From Kyro Require Model.QCache Proofs.QCacheInv.
 Import ListNotations.
 
 (* the document cache (both sub-caches under the A/B splitter) never exceeds its capacity, in every
@@ -70,12 +71,16 @@ Theorem C20_evicted_still_readable : forall (digest : vec -> dgst),
   map strip (snd (bulk digest c s' true ids)) = map strip (snd (bulk digest c s true ids)).
 Proof. exact evicted_still_readable. Qed.
 
-(* ---------------------------------------------------------------------------------------------
-   C20_qcache_bound (query-result cache, QueryHashCache) — to be added HERE by the coordinator:
-     From Kyro Require Import Proofs.QCacheProofs.
-     Theorem C20_qcache_bound : ... Proof. exact qcache_len_bound. Qed.
-   Nothing in this file depends on it.
-   --------------------------------------------------------------------------------------------- *)
+(* Query-result cache (QueryHashCache, Model/QCache.v, tied to the real cache by the C07
+   correspondence which also compares len() after every step): in every state reached by any
+   sequence of cache operations (get, insert, conditional insert, invalidate_doc,
+   invalidate_for_insert, clear, ...) the number of entries never exceeds the capacity (>= 1). *)
+Theorem C20_qcache_bound : forall (cfg : Kyro.Model.QCache.config) (ops : list Kyro.Model.QCache.op),
+  (1 <= Kyro.Model.QCache.c_cap cfg)%nat ->
+  (length (Kyro.Model.QCache.s_entries
+             (Kyro.Model.QCache.run_state cfg Kyro.Model.QCache.empty ops))
+   <= Kyro.Model.QCache.c_cap cfg)%nat.
+Proof. exact Kyro.Proofs.QCacheInv.len_bound. Qed.
 
 (* Non-vacuity: a history at capacity 1 / hard limit 1 in which an eviction and an emergency drain
    both happen, and the evicted / drained documents are still answered. *)
@@ -93,3 +98,4 @@ Print Assumptions C20_hot_bound_after_insert.
 Print Assumptions C20_hot_bound_api.
 Print Assumptions C20_hot_bound_orphans_refuted.
 Print Assumptions C20_evicted_still_readable.
+Print Assumptions C20_qcache_bound.
